@@ -2,6 +2,7 @@ import RisorModel.Util
 import RisorModel.C20.Model
 import RisorModel.C01.PrattOracle
 import RisorModel.C20.ParseNewline
+import RisorModel.C20.Bridge
 /-! Line-protocol front end of the C20 model (requests after the leading `C20` field).
 
   lex  <src-utf8-hex>                      → ok TAB tok;tok;…   tok = kindhex,lithex,sChar,sLine,sCol,sLS,eChar,eLine,eCol,eLS
@@ -22,6 +23,22 @@ import RisorModel.C20.ParseNewline
        render:    `same` when `renderNLTop (Layout.ofLists nls commas) tree` (the object of
                   `parse_newline_invariant`) equals the token list, otherwise the hex of Lean's
                   rendering as text; `-` without tree or layout
+  bridge <src-utf8-hex> <tree|-> <gaps|->
+       the lexer/parser bridge of Bridge.lean (theorems: BridgeProps.lean)
+       src:   a source text (the harness's own rendering of the tree)
+       tree:  the expression tree (S-expression of harness/gen.go) or `-`
+       gaps:  `-`, or items joined by `,`: `b<hex>` = blanks, `c<hex>.<hex>.<hex>` = blanks, comment body,
+              blanks (hex of the runes as UTF-8; `-` = empty)
+       → ok TAB tokens TAB renderSrc TAB flags TAB layoutSrc TAB gapsOk
+       tokens:    `toTokens (lexOuts src)` — the ADAPTER applied to the lexer model's output — as
+                  `typehex:lithex` items joined by `,` (the encoding harness/c01parse.go uses for the
+                  REAL lexer's tokens, EOF dropped); `E` when the lexer model reports an error
+       renderSrc: hex (UTF-8) of `renderSrc tree`; `-` without tree
+       flags:     `exprOK,unnested,lex,parse` (0/1 each): lex = `lexTokens (renderSrc tree) = some (renderTop tree)`,
+                  parse = the parser model returns the tree on those tokens; `-` without tree
+       layoutSrc: hex of `spellWith (renderTop tree) gaps`; `-` without tree or gaps
+       gapsOk:    1 when every gap satisfies `Gap.ok`, else 0; `-` without gaps
+       → unsupported … when the text has non-ASCII runes outside strings/comments or the tree is outside the core
 -/
 namespace Risor.C20
 open Risor.Util
@@ -118,7 +135,73 @@ def handleParseNl (toksField treeField nlsField commasField : String) : String :
                 if r == toks then "same" else hx (tokensText r)
           "ok\t" ++ parsedText ++ "\t" ++ (if rt then "1" else "0") ++ "\t" ++ rend
 
+
+/-! ### `bridge` -/
+
+def showTokenItem (t : Risor.C01.Pratt.Token) : String :=
+  kindHex t.kind.typ ++ ":" ++ toHexField (strBytes t.lit)
+
+def showTokens (ts : List Risor.C01.Pratt.Token) : String :=
+  if ts.isEmpty then "-" else ",".intercalate (ts.map showTokenItem)
+
+def hexChars (h : String) : Option Chars := srcOf h
+
+def decodeGapItem (item : String) : Option Gap :=
+  match item.toList with
+  | 'b' :: rest => (hexChars (String.ofList rest)).map Gap.blanks
+  | 'c' :: rest =>
+    match (String.ofList rest).splitOn "." with
+    | [a, b, c] =>
+      match hexChars a, hexChars b, hexChars c with
+      | some a, some b, some c => some (.comment a b c)
+      | _, _, _ => none
+    | _ => none
+  | _ => none
+
+def decodeGaps (field : String) : Option (List Gap) :=
+  if field == "-" then some [] else (field.splitOn ",").mapM decodeGapItem
+
+/-- the adapter's kind lookup is C01's (`decodeToken` of PrattOracle.lean uses `Kind.ofTyp`) -/
+example (s : String) : kindOfTyp s = ((Risor.C01.Pratt.Kind.ofTyp s).getD .ILLEGAL) := rfl
+
+def handleBridge (srcField treeField gapsField : String) : String :=
+  open Risor.C01.Pratt in
+  match srcOf srcField with
+  | none => "error\tbad-hex"
+  | some src =>
+    if unsupported (lexAll src) then "unsupported\tnon-ASCII rune outside strings and comments"
+    else
+      let toks := match lexTokens src with
+        | some ts => showTokens ts
+        | none => "E"
+      if treeField == "-" then "ok\t" ++ toks ++ "\t-\t-\t-\t-"
+      else
+        match Risor.C01.parseSX treeField.toList with
+        | none => "unsupported\tcannot read the tree"
+        | some (sx, _) =>
+          match toExpr sx with
+          | none => "unsupported\ttree outside the expression core"
+          | some tree =>
+            let text := renderSrc tree
+            let r := renderTop tree
+            let lexed := lexTokens text
+            let fuel := 3 * r.length + 20
+            let parsed := match lexed with
+              | some ts => (match parseExpr fuel Level.LOWEST.num ts with
+                  | some (e, []) => decide (e = tree)
+                  | _ => false)
+              | none => false
+            let b (x : Bool) : String := if x then "1" else "0"
+            let flags := b (exprOK tree) ++ "," ++ b (unnested tree) ++ "," ++ b (lexed == some r) ++ "," ++ b parsed
+            let lay :=
+              if gapsField == "-" then "-\t-"
+              else match decodeGaps gapsField with
+                | none => "-\t-"
+                | some gs => toHexField (utf8s (spellWith r gs)) ++ "\t" ++ b (gs.all Gap.ok)
+            "ok\t" ++ toks ++ "\t" ++ toHexField (utf8s text) ++ "\t" ++ flags ++ "\t" ++ lay
+
 def handle : List String → String
+  | ["bridge", src, tree, gaps] => handleBridge src tree gaps
   | ["parsenl", toks, tree, nls, commas] => handleParseNl toks tree nls commas
   | ["lex", h] =>
     match srcOf h with
